@@ -8,10 +8,15 @@ import os
 from typing import List, Optional, Union
 import records, sort_key
 from functions import prevnext
+try:
+  from crosshair.core import realize
+except ImportError:
+  realize = lambda x: x
 
 THOROUGH = os.environ.get("VERIF_TIER") == "thorough"
-N1 = 5 if THOROUGH else 4
+N1 = 4 if THOROUGH else 3
 N2 = 4 if THOROUGH else 3
+N3 = 3 if THOROUGH else 2
 
 
 class Col(object):
@@ -111,6 +116,7 @@ def prev_next_rank(gs: List[int], xs: List[int], cur: int, desc: bool) -> bool:
   pre: 1 <= cur <= len(xs)
   post: _
   """
+  cur = realize(cur)            # a row id: an index, realised (the cell contents stay symbolic)
   t = Tab(G=gs, X=xs)
   rec = t.Record(cur)
   ob = "-X" if desc else "X"
@@ -127,7 +133,7 @@ def prev_next_rank(gs: List[int], xs: List[int], cur: int, desc: bool) -> bool:
 
 def find_mixed(vals: List[Union[int, None, str]], probe: Union[int, None, str]) -> bool:
   """
-  pre: 1 <= len(vals) <= N2
+  pre: 1 <= len(vals) <= N3
   pre: all((not isinstance(v, int)) or 0 <= v <= 2 for v in vals)
   pre: all((not isinstance(v, str)) or len(v) <= 1 for v in vals)
   pre: (not isinstance(probe, str)) or len(probe) <= 1
@@ -147,12 +153,12 @@ def find_mixed(vals: List[Union[int, None, str]], probe: Union[int, None, str]) 
 
 
 OBLIGATIONS = [
-  {"func": "find_one_col", "cond_timeout": 200, "desc": "find.lt/le/gt/ge/eq, one sort column asc/desc, duplicates, any integer probe"},
-  {"func": "find_two_cols", "cond_timeout": 300, "desc": "find.* with order_by=(X, -Y) and two probe values"},
-  {"func": "prev_next_rank", "cond_timeout": 300, "desc": "PREVIOUS/NEXT/RANK(asc, desc) with group_by, any current row"},
-  {"func": "find_mixed", "cond_timeout": 300, "desc": "mixed-type sort values (int, None, str) follow the documented precedence"},
+  {"func": "find_one_col", "cond_timeout": 120, "desc": "find.lt/le/gt/ge/eq, one sort column asc/desc, duplicates, any integer probe"},
+  {"func": "find_two_cols", "cond_timeout": 120, "desc": "find.* with order_by=(X, -Y) and two probe values"},
+  {"func": "prev_next_rank", "cond_timeout": 120, "desc": "PREVIOUS/NEXT/RANK(asc, desc) with group_by, any current row"},
+  {"func": "find_mixed", "cond_timeout": 120, "desc": "mixed-type sort values (int, None, str) follow the documented precedence"},
 ]
-BOUNDS = {"rows": "<= %d (one column) / <= %d (two columns, mixed types)" % (N1, N2), "cell values": "ints 0..3 with duplicates; None; 1-char strs",
+BOUNDS = {"rows": "<= %d (one column) / <= %d (two columns) / <= %d (mixed types)" % (N1, N2, N3), "cell values": "ints 0..3 with duplicates; None; 1-char strs",
           "probe values": "unbounded ints (symbolic)"}
 FILES = ["sandbox/grist/records.py", "sandbox/grist/functions/prevnext.py", "sandbox/grist/sort_key.py"]
 ASSUMPTIONS = ["stand-in table object (harness) instead of table.Table: lookup_records = filter + sort by the real make_sort_key"]
